@@ -293,6 +293,11 @@ func (p *_Loader) Import(pkgpath string) (*types.Package, error) {
 		logger.Tracef(&config.EnableTrace_loader, "err: %v", err)
 		return nil, err
 	}
+	if len(pkg.Files) == 0 {
+		err = fmt.Errorf("package %q: no Wa source files", pkgpath)
+		logger.Tracef(&config.EnableTrace_loader, "err: %v", err)
+		return nil, err
+	}
 
 	// 设置main包的前端模式
 	if pkgpath == p.prog.Manifest.MainPkg {
@@ -928,7 +933,7 @@ func (p *_Loader) ParseDir(pkgpath string) (filenames []string, files []*ast.Fil
 		case token.LangType_Wz:
 			f, err = w2parser.ParseFile(nil, p.prog.Fset, filename, datas[i], w2parser.AllErrors|w2parser.ParseComments)
 		default:
-			panic("unreachable")
+			err = fmt.Errorf("%s: unknown source type", filename)
 		}
 		if err != nil {
 			logger.Tracef(&config.EnableTrace_loader, "filename: %v", filename)
